@@ -8,6 +8,7 @@ RULES = {
     "G5": order.rule_G5,
     "G6": order.rule_G6,
     "G7": order.rule_G7,
+    "G8": order.rule_G8,
     "D1": effects.rule_D1,
     "D2": effects.rule_D2,
     "D3": effects.rule_D3,
